@@ -58,6 +58,10 @@ class ItemSession(object):
     def skip(self):
         '''Mark the item as processed without download.'''
         _logger.debug(__(_('Skipping ‘{url}’.'), url=self.url_record.url))
+
+        # Store discovered URLs first: if the process dies in between, the
+        # item is processed again instead of its children being lost.
+        self.finish()
         self.app_session.factory['URLTable'].check_in(self.url_record.url, Status.skipped)
 
         self._processed = True
@@ -82,6 +86,9 @@ class ItemSession(object):
         url_result = URLResult()
         url_result.filename = filename
 
+        # Store discovered URLs first: if the process dies in between, the
+        # item is processed again instead of its children being lost.
+        self.finish()
         self.app_session.factory['URLTable'].check_in(
             url,
             status,
